@@ -266,6 +266,18 @@ def assembly_cases(ctx):
                 refn = MU0 / (4 * np.pi) * np.einsum("jk,j,ij->ik", Kt, dev.areas * LU**2, 1 / rn) / (1e-3 * LU)
                 if np.abs(apn["supercurrent_density"][:, :2] - refn).max() > 1e-9 * np.abs(refn).max() + 1e-30:
                     fail("potential-vs-si:near-film", f"vector potential of the supercurrent at height {zn / sc_:.3g} um above mesh sites differs from (mu0/4pi) sum K a / r (step {step})", step=step, height=float(zn / sc_))
+            # a sensor scanned across the film: ONE positions array, moved in place between the calls
+            scan = near.copy()
+            for k_ in range(3):
+                if k_:
+                    scan[:, 0] += 0.35 * sc_
+                    scan[:, 1] -= 0.2 * sc_
+                aps = sol.vector_potential_at_position(scan, zs=0.3 * sc_, return_sum=False, with_units=False)
+                rs = np.sqrt(((scan[:, None, :] - dev.points[None, :, :]) ** 2).sum(axis=2) + (0.3 * sc_) ** 2) * LU
+                refs = MU0 / (4 * np.pi) * np.einsum("jk,j,ij->ik", Kt, dev.areas * LU**2, 1 / rs) / (1e-3 * LU)
+                if np.abs(aps["supercurrent_density"][:, :2] - refs).max() > 1e-9 * np.abs(refs).max() + 1e-30:
+                    fail("potential-vs-si:positions-moved-in-place", f"after the positions array was moved in place (scan step {k_}) the vector potential of the supercurrent is not (mu0/4pi) sum K a / r at the new points (step {step})", step=step, scan_step=k_)
+                    break
             # the applied part is evaluated at the time of the frame
             if name.startswith("timedep"):
                 t_frame = float(sol.tdgl_data.state["time"])
